@@ -553,6 +553,15 @@ class _DropAnn(ast.NodeTransformer):
         return n
 
 
+LOCAL_REWRITES: dict[str, int] = {}
+
+
+def _count(what: str, n) -> None:
+    n = int(n) if not isinstance(n, bool) else (1 if n else 0)
+    if n:
+        LOCAL_REWRITES[what] = LOCAL_REWRITES.get(what, 0) + n
+
+
 def _drop_local_annotations(tree: ast.Module) -> None:
     _DropAnn().visit(tree)
     # loops over short literal sequences are unrolled (`for v in (0, 1): ...`, `for bdd, up in ((p, True), (n, False)): ...`)
@@ -576,21 +585,21 @@ def _drop_local_annotations(tree: ast.Module) -> None:
             for y in x.body:
                 if isinstance(y, ast.FunctionDef) and y.args.args and not any(
                         isinstance(d, ast.Name) and d.id == "staticmethod" for d in y.decorator_list):
-                    _worklist_to_recursion(y, True)
+                    _count("explicit_stacks_read_as_recursion", _worklist_to_recursion(y, True))
     for y in tree.body:
         if isinstance(y, ast.FunctionDef):
-            _worklist_to_recursion(y, False)
+            _count("explicit_stacks_read_as_recursion", _worklist_to_recursion(y, False))
             _propagate_local_copies(y)
-            _cursor_frames_to_lists(y)
+            _count("cursor_frames_read_as_consumed_lists", _cursor_frames_to_lists(y))
     from . import memo
     for x in ast.walk(tree):
         if isinstance(x, ast.FunctionDef):
             _flatten_chains(x)
-            _dsu_to_sorted(x)
-            _size_snapshot_loops(x)
-            _drop_length_shadows(x)
-            _inline_flag_locals(x)
-            memo.dissolve(x)
+            _count("decorate_sort_undecorate", _dsu_to_sorted(x))
+            _count("size_snapshot_loops", _size_snapshot_loops(x))
+            _count("length_shadows", _drop_length_shadows(x))
+            _count("named_conditions_inlined", _inline_flag_locals(x))
+            _count("memo_tables_dissolved", len(memo.dissolve(x)))
 
 
 _MUTATORS = {"append", "extend", "add", "remove", "discard", "pop", "clear", "sort", "update", "insert", "reverse", "popleft",
@@ -1821,10 +1830,12 @@ class Repo:
         if self.normalise:
             from . import typefacts
             self.type_normalisation = typefacts.normalise({k: m.tree for k, m in self.modules.items()})
+        LOCAL_REWRITES.clear()
         if self.normalise:
-            _dataclass_frames([m.tree for m in self.modules.values()])
+            _count("record_frames_read_as_tuples", _dataclass_frames([m.tree for m in self.modules.values()]))
         for m in self.modules.values():
             _drop_local_annotations(m.tree)
+        self.local_rewrites = dict(LOCAL_REWRITES)
         if self.normalise:
             _normalise_namedtuples([m.tree for m in self.modules.values()])
         for m in self.modules.values():
